@@ -5,14 +5,14 @@ C15 check:
     c15_clientmain.run_clientmain_part(chk, args)       # adds to chk, never sets the verdict itself
     c15_clientmain.replay_part(chk, rp)                 # for replay files with rp["kind"] == "clientmain"
 
-spec/ClientMain/ClientMain.tla        socksAcceptLoop (temporary / permanent AcceptSocks errors, the pause after a
-                                      temporary one, the deferred ln.Close), the handler (SOCKS arguments over
+spec/ClientMain/ClientMain.tla        socksAcceptLoop (temporary / permanent AcceptSocks errors - the retry after a
+                                      temporary one, at once or after a pause, is noted, not judged -, the deferred ln.Close), the handler (SOCKS arguments over
                                       command-line values: the precedence table total over absent / ok / bad per
                                       argument; Reject / Grant; the dial goroutine; select on shutdown / handler),
                                       copyLoop (two copiers at the grain of their Read / Write / send on done),
                                       main's shutdown (signal channel, listeners closed, close(shutdown), wg.Wait,
                                       exit).  TLC: CopyLaw, SocksClosedOnce, SfClosedOnce, ReplyLaw,
-                                      ConfigIsolation, ConfigSeenWhenDue, LoopEndsOnlyOnPerm, LnClosedByLoop, NoSpin,
+                                      ConfigIsolation, ConfigSeenWhenDue, LoopEndsOnlyOnPerm, LnClosedByLoop,,
                                       NoLeak, NoStuck, action property HandlersLeaveLoopAlone; liveness
                                       ShutdownReachesAll, ShutdownExits, HandlerEnds, Replied, LoopEnds.
 spec/ClientMain/ClientMain_Trace.tla  every trace recorded from the real code must be a behaviour of ClientMain.
@@ -43,7 +43,7 @@ SHARDS = 4
 KNOWN = []
 
 INVS = ("TypeOK CopyLaw SocksClosedOnce SfClosedOnce ReplyLaw ConfigIsolation ConfigSeenWhenDue LoopEndsOnlyOnPerm LnClosedByLoop "
-        "NoSpin NoLeak NoStuck").split()
+        "NoLeak NoStuck").split()
 TINVS = "TCopyLaw TClosedOnce TReplyLaw TConfig TLoop TNoStuck".split()
 FIELDS = ["ampcache", "front", "ice", "max", "url", "utls-nosni", "utls-imitate", "fingerprint"]
 
@@ -51,7 +51,6 @@ FIELDS = ["ampcache", "front", "ice", "max", "url", "utls-nosni", "utls-imitate"
 # configurations that MUST be violated - the properties are not vacuous; where the violation is visible at the
 # replay grain the counterexample is a schedule for the real code (which must NOT show the failure)
 WHATIF = [
-    ("asis-spin", "MC_asis_spin.cfg", {}, "invariant:NoSpin", "Gen_socks1.cfg", {"AsIs_Spin": "TRUE"}),
     ("asis-config", "MC_asis_config.cfg", {}, "invariant:ConfigIsolation", "Gen_socks2.cfg", {"AsIs_SharedConfig": "TRUE"}),
     ("doneUnbuffered", "MC_copy.cfg", {"Mut": '"doneUnbuffered"'}, "invariant:NoLeak", "Gen_copy.cfg", {"Mut": '"doneUnbuffered"'}),
     ("waitBoth", "MC_copy.cfg", {"Mut": '"waitBoth"'}, "invariant:NoStuck", "Gen_copy.cfg", {"Mut": '"waitBoth"'}),
@@ -88,7 +87,7 @@ def cmd_of(label):
     n, args = a[0], a[1:]
     if n in ("GConnect", "LAcceptConn"):
         return {"op": "Connect", "args": {k: v for k, v in sorted(args[0].items()) if v != "absent"}}
-    if n in ("GAcceptTemp", "LAcceptTemp"):
+    if n in ("GAcceptRetryAtOnce", "GAcceptRetryAfterPause", "AcceptRetryAtOnce", "AcceptRetryAfterPause"):     # one command: the code decides which
         return {"op": "AcceptTemp"}
     if n in ("GAcceptPerm", "LAcceptPerm"):
         return {"op": "AcceptPerm"}
@@ -108,14 +107,29 @@ def cmd_of(label):
 
 
 def key_of(s):
-    return (s["mode"],) + tuple((x["op"], x.get("i"), x.get("kind"), json.dumps(x.get("args"), sort_keys=True)) for x in s["steps"])
+    return (s["mode"],) + tuple((x["op"], x.get("i"), x.get("kind"), json.dumps(x.get("args"), sort_keys=True), json.dumps(x.get("burst"), sort_keys=True)) for x in s["steps"])
+
+
+def burst_schedules(rng, scheds, n):
+    """requests whose handlers run side by side: bursts of 2-3 Connect commands (argument vectors drawn from the TLC
+    behaviours already generated; every vector gets fingerprint = ok, which attributes the configs seen at the
+    hook; an unparsable max never reaches the hook and is left out), then the shutdown broadcast"""
+    vecs = [x["args"] for s in scheds if s["mode"] == "socks" for x in s["steps"] if x["op"] == "Connect" and x["args"].get("max") != "bad"]
+    out = []
+    for _ in range(n if vecs else 0):
+        burst = [dict(rng.choice(vecs), fingerprint="ok") for _ in range(rng.choice([2, 3, 3]))]
+        steps = [{"op": "ConnectBurst", "burst": burst}]
+        if rng.random() < 0.7:
+            steps.append({"op": "Shutdown"})
+        out.append({"mode": "socks", "steps": steps, "src": "burst"})
+    return out
 
 
 def nontrivial(s):
     """non-trivial: an error / end-of-stream / shutdown event or a SOCKS request with arguments, next to another command"""
     ops = [x["op"] for x in s["steps"]]
     hot = {"AcceptTemp", "AcceptPerm", "SocksEnd", "SfEnd", "SocksWriteFail", "SfWriteFail", "Shutdown", "Sigterm", "StdinEOF"}
-    return len(ops) > 1 and (bool(hot & set(ops)) or any(x.get("args") for x in s["steps"]))
+    return "ConnectBurst" in ops or (len(ops) > 1 and (bool(hot & set(ops)) or any(x.get("args") for x in s["steps"])))
 
 
 def dump_graph(chk, cfg):
@@ -278,7 +292,10 @@ def run_shard(binary, scheds, tag, patience_ms=None, extra_env=None):
     env.update(extra_env or {})
     r = vlib.run([binary, "-test.run=^TestVerifClientMain$", "-test.timeout=900s", "-test.count=1"], cwd=d, env=env, timeout=960)
     traces = vlib.read_ndjson(outp) if os.path.exists(outp) else []
-    if r.timed_out or r.rc != 0 or "VERIF_CLI schedules=" not in r.out:
+    # (a -race build - VERIF_RACE=1, the C20 monitor - fails the test function when the detector reported something:
+    # the reports are C20's business, the traces are complete and are judged here as usual)
+    raced = vlib.want_race(False) and r.rc == 1 and "race detected during execution of test" in r.out
+    if r.timed_out or (r.rc != 0 and not raced) or "VERIF_CLI schedules=" not in r.out:
         msg = None if r.timed_out else crash_message(r.out)
         if msg is not None and len(traces) < len(scheds):
             raise Crash(len(traces), msg, r.out)
@@ -353,7 +370,7 @@ def brief(e):
     return json.dumps(e, sort_keys=True)
 
 
-def config_signature(i, c, args):
+def config_signature(i, c, args, earlier=()):
     """what is wrong with the config connection i (1-based) was given, in abstract terms; None: nothing visible"""
     if not c.get("hascfg"):
         return None
@@ -363,7 +380,8 @@ def config_signature(i, c, args):
         if f == "utls-nosni":
             want_true = cls == "ok"
             if bool(v) != want_true:
-                return "ClientMain/config:utls-nosni-%s" % (("set-by-a-value-that-is-neither-true-nor-yes" if cls == "bad" else "set-by-another-connection") if v else "not-applied")
+                other = any(a.get("utls-nosni") == "ok" for a in earlier)
+                return "ClientMain/config:utls-nosni-%s" % (("set-by-another-connection" if other or cls != "bad" else "set-by-a-value-that-is-neither-true-nor-yes") if v else "not-applied")
             continue
         if v == -2:
             return "ClientMain/config:value-nobody-sent/%s" % f
@@ -420,15 +438,13 @@ def signature(trace, hw):
             return "ClientMain/acceptLoop:survives-permanent-error"
         if e["loop"] == "ended" and e["lncloses"] == 0:
             return "ClientMain/acceptLoop:ended-without-closing-the-listener"
-        if e["pauses"] < ntemp and e["loop"] == "accept":
-            return "ClientMain/acceptLoop:no-pause-after-temporary-error"
     for i, c in enumerate(e["conns"]):
         was = prev_obs["conns"][i] if prev_obs and i < len(prev_obs["conns"]) else None
         if was is not None and was == c:
             continue
         args = connects[i]["args"] if i < len(connects) else {}
         bad_max = args.get("max") == "bad"
-        sig = config_signature(i + 1, c, args)
+        sig = config_signature(i + 1, c, args, [x["args"] for x in connects[:i]])
         if sig:
             return sig
         if c["reply"] == "none" or c["reply"] == "error":
@@ -462,6 +478,19 @@ def signature(trace, hw):
         if e["sfcloses"] != ndone:
             return "ClientMain/dial:snowflake-conn-closed-%d-times-for-%d-finished-dials" % (e["sfcloses"], ndone)
     return "ClientMain/unexplained:after-%s" % cname
+
+
+def retry_note(chk, traces):
+    """what the accept loop did between a temporary Accept error and the next Accept call: noted, never judged"""
+    ntemp = npause = 0
+    for t in traces:
+        obs = [e for e in t["events"] if e.get("ev") == "obs"]
+        ntemp += sum(1 for e in t["events"] if e.get("ev") == "AcceptTemp")
+        npause += obs[-1]["pauses"] if obs else 0
+    if ntemp:
+        chk.note("ClientMain observation (not judged): %d temporary Accept errors; the loop called Accept again at once after %d of them and paused (>= 4 ms) "
+                 "before the next call after %d" % (ntemp, ntemp - npause, npause))
+        chk.cov.setdefault("observations", {})["clientmain_accept_retry"] = {"temporary_errors": ntemp, "retried_at_once": ntemp - npause, "paused_first": npause}
 
 
 def trace_cfg(mode):
@@ -592,6 +621,8 @@ def run_clientmain_part(chk, args):
                 if GEN_MODE[cfg] == "proc" and not any(c["op"] in ("Sigterm", "StdinEOF") for c in steps):
                     continue
                 add({"mode": GEN_MODE[cfg], "steps": steps, "src": "simulate:" + cfg})
+        for b in burst_schedules(rng, scheds, 12 if q else 60):
+            add(b)
         chk.cov.setdefault("generation", {}).update({"ClientMain:" + k: v for k, v in stats.items()})
         if len(scheds) < 200:
             raise vlib.Inconclusive("vacuous: only %d client main loop schedules generated" % len(scheds))
@@ -603,13 +634,14 @@ def run_clientmain_part(chk, args):
         scheds = [s for s in scheds if s["id"] not in CRASHED]
         byid = {s["id"]: s for s in scheds}
         skipped = sum(t["skipped"] for t in traces)
-        ncmd = sum(len(s["steps"]) for s in scheds)
+        ncmd = sum(len(x.get("burst") or [1]) for s in scheds for x in s["steps"])
         nmode = collections.Counter(s["mode"] for s in scheds)
         chk.note("ClientMain: replayed %d schedules with %d commands on the real code (%d socks, %d copyLoop, %d against main() in a child process; %d commands not applicable)" % (
             len(scheds), ncmd, nmode["socks"], nmode["copy"], nmode["proc"], skipped))
         if skipped * 5 > max(ncmd, 1):
             raise vlib.Inconclusive("more than 20%% of the commands (%d of %d) were not applicable: the model does not describe the code" % (skipped, ncmd))
         accepted, rejected = validate(chk, traces, "main")
+        retry_note(chk, traces)
         report(chk, binary, rejected, byid)
         model_check_collect(chk, started)
         chk.cov["evaluations"] += len(scheds)
@@ -617,8 +649,9 @@ def run_clientmain_part(chk, args):
         chk.cov["traces_validated_against_impl"] += accepted
         exits = [e["ms"] for t in traces if t["mode"] == "proc" for e in t["events"] if e.get("ev") == "pobs" and e.get("exited") and "ms" in e]
         argvecs = {json.dumps(x["args"], sort_keys=True) for s in scheds for x in s["steps"] if x["op"] == "Connect"}
+        nburst = sum(1 for s in scheds if s.get("src") == "burst")
         chk.cov["clientmain"] = {"schedules": len(scheds), "socks": nmode["socks"], "copyloop": nmode["copy"], "child_process": nmode["proc"], "commands": ncmd,
-                                 "commands_skipped": skipped, "accepted": accepted, "rejected": len(rejected), "distinct_argument_vectors": len(argvecs),
+                                 "commands_skipped": skipped, "accepted": accepted, "rejected": len(rejected), "distinct_argument_vectors": len(argvecs), "bursts": nburst,
                                  "exit_ms_max": max(exits) if exits else None}
         for m in ("socks", "copy", "proc"):
             for s in [x for x in scheds if x["mode"] == m][:1]:
@@ -632,11 +665,11 @@ def run_clientmain_part(chk, args):
         except BaseException:   # noqa: BLE001 - already failing
             pass
     chk.assumptions += [
-        "ClientMain: gated replays issue commands only when every goroutine of the code under test is parked (GenSpec); finer interleavings are covered by TLC on the model",
+        "ClientMain: gated replays issue commands only when every goroutine of the code under test is parked (GenSpec); finer interleavings are covered by TLC on the model and by the bursts (2-3 requests let through in a row, handlers side by side, which is also what gives the race detector of C20 concurrent handlers to look at)",
         "ClientMain: the ClientConfig a handler builds is observed where it is handed to sf.NewSnowflakeClient (guarded hook newclient.config); every value carries the identity of the connection (or of the command line) it came from",
         "ClientMain: the real Transport runs with unusable ICE servers, so every attempt to obtain a peer fails before any rendezvous (C15 owns that loop); its Dial never fails; SnowflakeConn.Close is seen through its log line",
         "ClientMain: for copyLoop the two conns are scripted and the closes of its callers (dial goroutine: sconn.Close(); handler: conn.Close()) are mirrored in that order",
-        "ClientMain: an observation waits (at most 2 s, 5 s in the confirmation run) for loopback TCP to deliver replies and closes; a pause of the accept loop is a gap of at least 4 ms between a temporary error and the next Accept call",
+        "ClientMain: an observation waits (at most 2 s, 5 s in the confirmation run) for loopback TCP to deliver replies and closes",
         "ClientMain: the child-process rig waits 10 s for main() to exit after the signal",
     ]
 
